@@ -108,6 +108,11 @@ theorem C18_winding_unique_up_to_components (w : SameDir) (adj : List (Nat × Na
     ∀ e ∈ adj, bxor (x1 e.1) (x2 e.1) = bxor (x1 e.2) (x2 e.2) :=
   traversals_differ_by_components w adj x1 x2 h1 h2
 
+/-- what the driver runs (flips kept as a list) is the traversal of `C18_fix_winding` -/
+theorem C18_driver_traversal (w : SameDir) (n : Nat) (tree : List (Nat × Nat)) (hn : ∀ e ∈ tree, e.2 < n) :
+    ∀ i, look (traverseL w n tree) i = traverse w tree i :=
+  traverseL_eq w n tree hn
+
 /-- non-vacuity: a tetrahedron with face 2 reversed (every pair involving face 2 runs the same way);
     a search tree from face 0 satisfies the hypotheses and the traversal reverses exactly face 2 -/
 example :
